@@ -35,6 +35,7 @@ std::string read_file(const std::string &p) { std::ifstream f(p, std::ios::binar
 
 static double now_ms() { return std::chrono::duration<double, std::milli>(std::chrono::steady_clock::now().time_since_epoch()).count(); }
 static double g_case_t0 = 0;
+static void flush_counts();
 static void emit(const std::string &line) {
 	if (!ctx.out) return;
 	fputs(line.c_str(), ctx.out); fputc('\n', ctx.out); fflush(ctx.out);
@@ -94,6 +95,7 @@ void case_end(const std::string &key, bool nontrivial, const std::string &sample
 	if (!sample_json.empty() && ctx.samples_emitted < ctx.max_samples) { j.raw("sample", sample_json); ctx.samples_emitted++; }
 	emit(j.str());
 	ctx.cur_case = -1;
+	flush_counts();
 }
 
 void violation(const std::string &key, const std::string &what, const std::string &witness_json) {
@@ -110,11 +112,18 @@ void record(const std::string &json) {
 
 void count(const std::string &name, long long n) { ctx.counts[name] += n; }
 
-void finish() {
+// counters are written after every case (as deltas), so a worker that dies later loses nothing
+static void flush_counts() {
+	if (ctx.counts.empty()) return;
 	std::string c = "{"; bool first = true;
 	for (auto &kv : ctx.counts) { if (!first) c += ","; first = false; c += "\"" + jesc(kv.first) + "\":" + std::to_string(kv.second); }
 	c += "}";
 	emit(J().kv("t", "count").raw("counts", c).str());
+	ctx.counts.clear();
+}
+
+void finish() {
+	flush_counts();
 	emit(J().kv("t", "done").str());
 	if (ctx.out && ctx.out != stdout) fclose(ctx.out);
 	ctx.out = nullptr;
